@@ -565,6 +565,9 @@ def run_impl(base, top, opts, allow_create, allow_xdev, ops, order_key, real_fau
                     m.update_entries_for_directory(op[1], hashes=(op[2][0] if op[2] else None),
                                                    last_mtime=(op[3][0] if op[3] else None))
                     out.append(['ok', []])
+                elif op[0] == 'update_path':
+                    m.update_entry_for_path(op[1], new_entry_type=op[2], hashes=(op[3][0] if op[3] else None))
+                    out.append(['ok', []])
                 elif op[0] == 'save':
                     m.save_manifests(hashes=(op[1][0] if op[1] else None), force=bool(op[2]),
                                      sort=(bool(op[3][0]) if op[3] else None),
